@@ -90,7 +90,7 @@ def main():
     m = {
         "version": 1,
         "setup_cmd": "cd /verif && ./check setup",
-        "hooks": {"guard": "verif-hooks", "enable": "cargo feature verif-hooks of kestrel-crypto (src/crypto/Cargo.toml), switched on by /verif/crates/kverif/Cargo.toml and /verif/fuzz/Cargo.toml; default off",
+        "hooks": {"guard": "verif-hooks", "enable": "cargo feature verif-hooks of kestrel-crypto (src/crypto/Cargo.toml), switched on by /verif/crates/kverif/Cargo.toml, /verif/crates/kverif_nd/Cargo.toml and /verif/fuzz/Cargo.toml; default off",
                   "baseline_off_cmd": "cd /repo && cargo test --workspace --no-fail-fast --offline", "source_commits": hook_shas, "add_only": True},
         "engines": [
             {"name": "kverif", "path": "/verif/crates/kverif", "serves_properties": sorted(CHECKS), "kind_free_text": "Rust binary: seeded proptest TestRunners on 16 worker threads (shrinking, replay files) + small-scope exhaustive enumerators sharing the same oracle functions; scripted Read/Write objects with an event log; counting allocator; CLI process driver"},
@@ -99,7 +99,7 @@ def main():
         ],
         "checks": checks,
         "not_applicable": na,
-        "notes": "Every command is ./check <ID> <tier>; it rebuilds from /repo's working tree (content-hash freshness guard; two profiles: with and without debug assertions), runs kverif with VERIF_SEED, and rewrites /verif/evidence/<ID>.json. Exit 0 held / 1 VIOLATION / 2 inconclusive (build failure - e.g. a change to the signature of a crate-private keyring function kverif calls -, oracle self-test failure, hang of a non-C09 case, watchdog). An abnormal end of kverif is triaged from the per-worker crash trace and reported as a VIOLATION with a replay file when a traced case reproduces it.",
+        "notes": "Every command is ./check <ID> <tier>; it rebuilds from /repo's working tree (content-hash freshness guard; three build configurations: with debug assertions, without them, and - for C01, C06, C07 - the library with default-features = false), runs kverif with VERIF_SEED, and rewrites /verif/evidence/<ID>.json. Exit 0 held / 1 VIOLATION / 2 inconclusive (build failure - e.g. a change to the signature of a crate-private keyring function kverif calls -, oracle self-test failure, hang of a non-C09 case, watchdog). An abnormal end of kverif is triaged from the per-worker crash trace and reported as a VIOLATION with a replay file when a traced case reproduces it.",
     }
     if not na: del m["not_applicable"]
     json.dump(m, open("/verif/MANIFEST.json", "w"), indent=1)
